@@ -43,7 +43,8 @@ def gen_cases(ctx):
     for i in range(ctx.scale(5000, 720000)):
         c = gen_history_case(rng, classes=gen.POSITIVE_CLASSES, max_jobs=rng.choice([2, 3, 4, 5]),
                              max_machines=rng.choice([2, 3, 4]), filters=False)
-        c["filter"] = rng.choice([None, {"names": ["dominated_operations"], "form": "function"}])
+        c["filter"] = rng.choice([None, {"names": ["dominated_operations"], "form": "function"},
+                                  {"names": [rng.choice(gen.CUSTOM_FILTERS)], "form": "custom"}])
         c["builder"] = names[i % 5]
         if c["builder"] == "custom":
             c["instance"] = gen.gen_instance(rng, rng.choice(["gap", "gap", "classic", "flexible", "recirc"]),
@@ -66,6 +67,13 @@ def custom_graph(instance, rng):
     rng.shuffle(job_ids)
     for j in job_ids:
         g.add_node(Node(node_type=NodeType.JOB, job_id=j))
+    if rng.random() < 0.35:
+        # a graph with job nodes and a global node but no machine nodes at all
+        from job_shop_lib.graphs import add_global_node, add_job_global_edges
+        add_operation_job_edges(g)
+        add_global_node(g)
+        add_job_global_edges(g)
+        return g
     used = [m for m in range(instance.num_machines) if instance.operations_by_machine[m]]
     for m in reversed(used):
         g.add_node(Node(node_type=NodeType.MACHINE, machine_id=m))
@@ -137,7 +145,10 @@ def run_case(ctx, case):
         o, m = run.choose(rng, pol if pol != "mixed" else rng.choice(gen.POLICIES))
         run.dispatch(o, m)
         g = upd.job_shop_graph
-        now = r.current_time(None)
+        # the dispatcher's clock: with a user-written filter it is the minimum start over the
+        # operations that filter lets through (reference model mirrors the filter)
+        now = r.current_time(run.filter_names if run.filter_names and
+                             run.filter_names[0].startswith("custom_") else None)
         completed = set(r.completed(now))
         scheduled = set(r.scheduled())
         if scheduled - completed:
